@@ -8,6 +8,9 @@ HARNESS = os.path.join(VERIF, "harness")
 WORK = os.path.join(VERIF, "work")
 EVID = os.path.join(VERIF, "evidence")
 FQV = os.path.join(HARNESS, "target", "debug", "fqv")
+# the same harness and crate compiled WITHOUT debug assertions and overflow checks (what `--release` users run)
+FQV_ND = os.path.join(HARNESS, "target-nd", "debug", "fqv")
+ND_FLAGS = 'build.rustflags=["--cfg","fast_qr_verif","-C","debug-assertions=off","-C","overflow-checks=off"]'
 FQMODEL = os.path.join(LEAN, ".lake", "build", "bin", "fqmodel")
 KNOWN = os.path.join(VERIF, "KNOWN_FINDINGS.txt")
 STD_AXIOMS = {"propext", "Classical.choice", "Quot.sound"}
@@ -31,8 +34,12 @@ def log(msg):
 # ------------------------------------------------------------------------------------------------
 # build steps
 def build_harness():
-    rc, out, dt = sh(["cargo", "build", "--offline"], cwd=HARNESS, timeout=1800)
-    return rc == 0, out, dt
+    t = time.time()
+    with ThreadPoolExecutor(max_workers=2) as ex:
+        a = ex.submit(sh, ["cargo", "build", "--offline"], HARNESS, 1800)
+        b = ex.submit(sh, ["cargo", "build", "--offline", "--target-dir", "target-nd", "--config", ND_FLAGS], HARNESS, 1800)
+        (rc, out, _), (rc2, out2, _) = a.result(), b.result()
+    return rc == 0 and rc2 == 0, out + ("\n[no-debug-assertions build]\n" + out2 if rc2 != 0 else ""), time.time() - t
 
 
 def regen_tables(workdir):
@@ -115,19 +122,22 @@ def grep_forbidden():
 
 # ------------------------------------------------------------------------------------------------
 # cases
-def gen_cases(prop, tier, seed, path):
-    rc, out, dt = sh([FQV, "gen", prop, tier, str(seed), path], timeout=7200)
+def gen_cases(prop, tier, seed, path, binary=None):
+    rc, out, dt = sh([binary or FQV, "gen", prop, tier, str(seed), path], timeout=7200)
     if rc != 0:
         return None, out[-3000:], dt
     m = re.search(r"cases=(\d+)", out)
     return (int(m.group(1)) if m else 0), out, dt
 
 
-def run_driver(casefile, workdir, prop="full", shards=16):
+def run_driver(casefile, workdir, prop="full", shards=16, given=None):
     """pipes the case file through the compiled Lean driver, sharded; returns list of verdict lines"""
-    lines = open(casefile, errors="replace").read().split("\n")
-    if lines and lines[-1] == "":
-        lines.pop()
+    if given is not None:
+        lines = list(given)
+    else:
+        lines = open(casefile, errors="replace").read().split("\n")
+        if lines and lines[-1] == "":
+            lines.pop()
     n = len(lines)
     if n == 0:
         return lines, []
@@ -261,7 +271,35 @@ def run_cases(prop, cfg, tier, seed, workdir, tag):
             fails.append((i, l, sv))
         if mv != "ok":
             diffs.append((i, l, mv))
-    return {"n": len(lines), "fails": fails, "diffs": diffs, "keys": keys, "ops": ops,
+    # the same cases (same seed, same generator) through the build WITHOUT debug assertions / overflow checks: only the
+    # lines whose result differs from the debug build's are judged again (on an unchanged tree there are none)
+    nd = {"compared": 0, "differ": 0, "note": ""}
+    if os.path.exists(FQV_ND) and prop not in ("C19",):
+        casefile2 = os.path.join(workdir, "cases_%s_nd.txt" % tag)
+        n2, out2, dt2 = gen_cases(prop, tier, seed, casefile2, FQV_ND)
+        if n2 is None:
+            nd["note"] = "generation with the no-debug-assertions build failed: " + out2[-300:]
+            fails.append((len(lines), "profile-nd " + prop, "FAIL:case-generation-crashed-without-debug-assertions"))
+        else:
+            lines2 = open(casefile2, errors="replace").read().split("\n")
+            if lines2 and lines2[-1] == "":
+                lines2.pop()
+            if len(lines2) == len(lines):
+                idx = [i for i in range(len(lines)) if lines[i] != lines2[i]
+                       and lines[i].split(" ", 1)[0] not in ("threads", "file")]
+                cand = [lines2[i] for i in idx]
+            else:
+                idx = list(range(len(lines2)))
+                cand = lines2
+                nd["note"] = "case lists differ in length (%d vs %d): all judged" % (len(lines), len(lines2))
+            nd["compared"], nd["differ"] = len(lines2), len(cand)
+            if cand:
+                _, v2 = run_driver(None, workdir, prop, given=cand)
+                for l2, v in zip(cand, v2):
+                    sv = v.split("\t")[0] if v else "FAIL:no-verdict"
+                    if sv != "ok":
+                        fails.append((len(lines), "[no-debug-assertions] " + l2, sv))
+    return {"n": len(lines), "fails": fails, "diffs": diffs, "keys": keys, "ops": ops, "nd": nd,
             "outcomes": outcome_kinds, "dt_gen": dt_gen, "dt_drv": dt_drv,
             "samples": [short(l) for l in lines[:2] + lines[len(lines) // 2:len(lines) // 2 + 2] + lines[-1:]],
             "casefile": casefile}
@@ -413,7 +451,11 @@ def run_check(prop, cfg, tier, seed, workdir):
         # the same thread — hidden state — would not replay from its own line)
         def alone(l):
             try:
-                rc_, line_, _ = sh([FQV, "rerun"] + case_pre(l).split(" "))
+                binary = FQV
+                if l.startswith("[no-debug-assertions] "):
+                    l = l[len("[no-debug-assertions] "):]
+                    binary = FQV_ND
+                rc_, line_, _ = sh([binary, "rerun"] + case_pre(l).split(" "))
                 line_ = line_.strip().split("\n")[-1]
                 pr = subprocess.run([FQMODEL, prop], input=line_ + "\n", stdout=subprocess.PIPE, text=True, timeout=300)
                 return pr.stdout.strip().split("\t")[0] != "ok"
@@ -477,6 +519,11 @@ def run_check(prop, cfg, tier, seed, workdir):
             "ops": res["ops"], "implementation_outcomes": res["outcomes"],
             "spec_failures": len(fails), "model_differences": len(diffs),
             "search_cases": searched,
+            "second_build_profile": {"what": "the same generated cases through the crate and harness compiled WITHOUT debug assertions "
+                                             "and overflow checks; lines differing from the debug build's are judged again",
+                                     "lines_compared": res.get("nd", {}).get("compared", 0),
+                                     "lines_differing": res.get("nd", {}).get("differ", 0),
+                                     "note": res.get("nd", {}).get("note", "")},
             "broken": broken, "partial": cfg.get("partial", False), "missing": cfg.get("missing", []),
             "exhaustive": bool(cfg.get("exhaustive_" + tier, False)),
             "notes": notes,
@@ -519,7 +566,12 @@ def replay(path):
     if not ok:
         print("harness does not build")
         return 1
-    rc, line, _ = sh([FQV, "rerun"] + case.split(" "))
+    binary = FQV
+    if case.startswith("[no-debug-assertions] "):
+        case = case[len("[no-debug-assertions] "):]
+        binary = FQV_ND
+        print("profile: crate and harness built without debug assertions and overflow checks")
+    rc, line, _ = sh([binary, "rerun"] + case.split(" "))
     line = line.strip().split("\n")[-1]
     p = subprocess.run([FQMODEL, prop or "full"], input=line + "\n", stdout=subprocess.PIPE, text=True)
     verdict = p.stdout.strip()
